@@ -528,6 +528,25 @@ fn _keep(_: ManuallyDrop<u8>) {}
 // list through `verif::probe_counts`, as the real list does.
 
 pub static mut ALLOC_TRACK: bool = false;
+/// natively: remember the layout of every block allocated from now on
+pub static mut ALLOC_TRACK_LAYOUTS: bool = false;
+
+pub fn track_layouts(on: bool) {
+    unsafe { ALLOC_TRACK_LAYOUTS = on }
+}
+
+/// natively: a block was released with another layout than it was allocated
+/// with (under Kani its allocator model asserts this itself)
+pub fn layout_mismatch() -> bool {
+    #[cfg(not(kani))]
+    {
+        unsafe { counting_alloc::LAYOUT_MISMATCH }
+    }
+    #[cfg(kani)]
+    {
+        false
+    }
+}
 pub static mut ALLOCS: usize = 0;
 
 pub fn alloc_track(on: bool) {
@@ -586,12 +605,56 @@ pub mod alloc_stubs {
 pub mod counting_alloc {
     use std::alloc::{GlobalAlloc, Layout, System};
     pub struct Counting;
+
+    // layouts of the blocks allocated while tracking is on: a block released
+    // with another layout than it was allocated with is undefined behaviour that
+    // the system allocator does not notice (C03)
+    const NB: usize = 64;
+    static mut BLOCKS: [(usize, usize, usize); NB] = [(0, 0, 0); NB];
+    pub static mut LAYOUT_MISMATCH: bool = false;
+
+    #[allow(static_mut_refs)]
+    fn remember(p: *mut u8, l: Layout) {
+        unsafe {
+            if !super::ALLOC_TRACK_LAYOUTS || p.is_null() {
+                return;
+            }
+            let mut i = 0;
+            while i < NB {
+                if BLOCKS[i].0 == 0 {
+                    BLOCKS[i] = (p as usize, l.size(), l.align());
+                    return;
+                }
+                i += 1;
+            }
+        }
+    }
+    #[allow(static_mut_refs)]
+    fn forget(p: *mut u8, l: Layout) {
+        unsafe {
+            let mut i = 0;
+            while i < NB {
+                if BLOCKS[i].0 == p as usize {
+                    if BLOCKS[i].1 != l.size() || BLOCKS[i].2 != l.align() {
+                        LAYOUT_MISMATCH = true;
+                    }
+                    BLOCKS[i] = (0, 0, 0);
+                    return;
+                }
+                i += 1;
+            }
+        }
+    }
+
     unsafe impl GlobalAlloc for Counting {
         unsafe fn alloc(&self, l: Layout) -> *mut u8 {
             super::note_alloc();
-            unsafe { System.alloc(l) }
+            let p = unsafe { System.alloc(l) };
+            remember(p, l);
+            p
         }
         unsafe fn dealloc(&self, p: *mut u8, l: Layout) {
+            forget(p, l);
             unsafe { System.dealloc(p, l) }
         }
         unsafe fn alloc_zeroed(&self, l: Layout) -> *mut u8 {
